@@ -223,6 +223,13 @@ def run_case(case, ctx):
             st.seen("margin", margin)
             kind = ["ortho", "tri", "ortho", "tri", "general", "permuted"][int(rng.integers(6))]
             cell = rand_cell(rng, kind, 12.5, 16.0)
+            if rng.integers(5) == 0:
+                # a box of several hundred Angstrom (a replicated framework, a slab with vacuum): coordinates of that size carry
+                # seven significant digits only in single precision - the pair is still decided in the sixth decimal
+                cell = rand_cell(rng, kind, 250.0, 900.0)
+                margin = 2e-6 if margin > 1e-4 and rng.integers(2) else margin
+                d = c + sign * margin
+                st.count("pairs_in_cells_of_several_hundred_angstrom")
             ncross = {"direct": 0, "face": 1, "edge": 2, "corner": 3}[pl]
             # p1 close to the (1,1,..) corner in `ncross` fractional coordinates, direction pointing out of the cell there
             f = rng.uniform(0.35, 0.65, 3)
@@ -310,6 +317,8 @@ def run_case(case, ctx):
 
 def requirements(stats, tier):
     need = []
+    if stats.get("pairs_in_cells_of_several_hundred_angstrom") < (500 if tier == "quick" else 5000):
+        need.append("pairs in cells of several hundred Angstrom: %d" % stats.get("pairs_in_cells_of_several_hundred_angstrom"))
     if stats.get("detections_in_structures_with_several_atom_types_per_element") < (30 if tier == "quick" else 5000):
         need.append("detections in structures with several atom types per element: %d" % stats.get("detections_in_structures_with_several_atom_types_per_element"))
     if stats.nseen("first_element") < 97:
